@@ -12,6 +12,8 @@
 (*   k    "term" | "empty" | "nt"                                            *)
 (*   cap  capability of the interpreter bound to an "nt" node:               *)
 (*        "plain" (Eval only) | "checker" | "transformer" | "both"           *)
+(*        | "none" (no interpreter bound: a pure grouping node; it cannot be *)
+(*        evaluated, the other passes treat it like "plain")                 *)
 (*   kids ids of the children (greater than i); node 1 is the root.          *)
 (* `list` = TRUE puts the tree into an ast.NodeList of two alternatives (the  *)
 (* tree and one extra terminal); passes see the list as the root.            *)
@@ -103,6 +105,9 @@ EvalLog(tree, failAt, n) ==   \* <<log, failed>>
                            ELSE LET r == EvalLog(tree, failAt, nd.kids[i]) IN
                                 IF r[2] THEN <<acc \o r[1], TRUE>> ELSE Kids(i + 1, acc \o r[1])
        IN Kids(1, <<n>>)
+
+\* evaluation needs an interpreter for every non-terminal
+Evaluable(tree) == \A n \in 1..Len(tree) : tree[n].k = "nt" => tree[n].cap # "none"
 
 \* ---- the Walk machine (explicit stack) ----------------------------------------------------------
 CONSTANTS Trees, Lists, StopKs
